@@ -570,10 +570,14 @@ spif_ustr_prepend(spif_ustr_t self, spif_ustr_t other)
     REQUIRE_RVAL(!SPIF_USTR_ISNULL(other), FALSE);
     if (other->size && other->len) {
         self->size += other->size - 1;
+        if (self->size <= self->len + other->len) {
+            self->size = self->len + other->len + 1;
+        }
         self->s = (spif_charptr_t) REALLOC(self->s, self->size);
-        memmove(self->s + other->len, self->s, self->len + 1);
+        memmove(self->s + other->len, self->s, self->len);
         memcpy(self->s, SPIF_USTR_STR(other), other->len);
         self->len += other->len;
+        self->s[self->len] = 0;
     }
     return TRUE;
 }
@@ -603,10 +607,14 @@ spif_ustr_prepend_from_ptr(spif_ustr_t self, spif_charptr_t other)
     len = strlen((const char *) other);
     if (len) {
         self->size += len;
+        if (self->size <= self->len + len) {
+            self->size = self->len + len + 1;
+        }
         self->s = (spif_charptr_t) REALLOC(self->s, self->size);
-        memmove(self->s + len, self->s, self->len + 1);
+        memmove(self->s + len, self->s, self->len);
         memcpy(self->s, other, len);
         self->len += len;
+        self->s[self->len] = 0;
     }
     return TRUE;
 }
